@@ -34,6 +34,12 @@ MALFORMED = [
     ("alias of unknown unit", "@alias nosuchunit = nsu"),
     ("invalid prefix name", "2p- = 10"),
     ("modifier without a value", "degQ = kelvin; offset:"),
+    ("group name that is not a name", "@group test-imp\n    tiu = 2 * metre\n@end"),
+    ("system name that is not a name", "@system sys-x\n    metre\n@end"),
+    ("unit without a value", "novalue ="),
+    ("unit without a value but a symbol", "novalue2 = = nv2"),
+    ("prefix without a value", "nopfx- ="),
+    ("modifier given twice", "degQ2 = kelvin; offset: 1; offset: 2"),
     ("modifier without a colon", "degQ = kelvin; offset 273.15"),
     ("stray text after the modifiers", "degQ = 2 * kelvin; offset: 10; bogus"),
     ("number in place of a modifier", "degQ = kelvin; 273.15"),
@@ -478,6 +484,55 @@ class Check(Property):
             v.append(f"C10 define-path probe raised {type(exc).__name__}: {exc}")
         return v
 
+    def system_rules_probe(self):
+        """@system blocks with rules, as written: a base unit that is a power (are = 100 m**2), an inverse (hertz = 1 / s) or a
+        multiple (yard) of a root unit, in the short form and in the `new:old` form - the same from a file, a list of lines and
+        define() calls; exact in a Fraction registry"""
+        import pint
+        v = []
+        lines = ["metre = [length] = m", "second = [time] = s", "gram = [mass] = g", "kilo- = 1000 = k-",
+                 "are = 100 * metre ** 2", "hertz = 1 / second", "yard = 0.9144 * metre", "minute = 60 * second",
+                 "newton = kilogram * metre / second ** 2",
+                 "@group GL", "    furlong = 220 * yard", "@end",
+                 "@system land using GL", "    are", "    hertz", "@end",
+                 "@system yards using GL", "    yard", "@end",
+                 "@system force using GL", "    newton:gram", "@end"]      # (rules of one system that depend on each other have no defined meaning)
+        want = {("kilometre", "land"): (Fraction(100), {"are": Fraction(1, 2)}), ("minute", "land"): (Fraction(60), {"hertz": -1}),
+                ("furlong", "land"): (Fraction(220 * 9144, 100000), {"are": Fraction(1, 2)}),
+                ("kilometre", "yards"): (Fraction(10000000, 9144), {"yard": 1}), ("minute", "yards"): (Fraction(60), {"second": 1}),
+                ("kilogram", "force"): (Fraction(1), {"newton": 1, "metre": -1, "second": 2}), ("furlong", "yards"): (Fraction(220), {"yard": 1})}
+        try:
+            with tempfile.TemporaryDirectory(prefix="c10_sr_") as d:
+                fn = os.path.join(d, "defs.txt")
+                open(fn, "w").write("\n".join(lines) + "\n")
+                regs_ = {"file": pint.UnitRegistry(fn, non_int_type=Fraction, cache_folder=None),
+                         "lines": pint.UnitRegistry(list(lines), non_int_type=Fraction)}
+                dreg = pint.UnitRegistry(None, non_int_type=Fraction)
+                block = []
+                for ln in lines:
+                    if ln.startswith("@") and not ln.startswith("@end"):
+                        block = [ln]
+                    elif block:
+                        block.append(ln)
+                        if ln.startswith("@end"):
+                            dreg.define("\n".join(block))
+                            block = []
+                    else:
+                        dreg.define(ln)
+                regs_["define"] = dreg
+            for path, r in regs_.items():
+                for (unit, system), (wf, wu) in want.items():
+                    try:
+                        f, b = r.get_base_units(unit, system=system)
+                        got = (Fraction(f), {k_: Fraction(e) for k_, e in b._units.items()})
+                    except Exception as exc:  # noqa: BLE001
+                        got = f"{type(exc).__name__}: {str(exc)[:80]}"
+                    if got != (wf, wu):
+                        v.append(f"C10 [{path}] base units of {unit} in the system {system}: {got}; as written: {wf} {wu}")
+        except Exception as exc:  # noqa: BLE001
+            v.append(f"C10 system-rules probe raised {type(exc).__name__}: {exc}")
+        return v[:6]
+
     def shared_cache_probe(self):
         """one cache folder serving several definition sources (two line lists, a file and a line list, float and Fraction): every
         registry means what ITS definitions say, cold and warm"""
@@ -516,6 +571,7 @@ class Check(Property):
             self._define_probe_done = True
             v += self.define_path_probe()
             v += self.shared_cache_probe()
+            v += self.system_rules_probe()
         if c["kind"] == "pkey":
             # a prefix of the bundled files, as the independent reader sees its line: name, value, symbol ("_" = none), aliases
             P = regs.pools()
